@@ -1,6 +1,6 @@
 #!/bin/bash
 # confirm_seed3.sh <Cxx> <A|B>: re-verifies a round-3 sub-agent change in its scratch worktree /tmp/r3-Cxx (deliverables in /tmp/r3-Cxx-out/<A|B>)
-ID=$1; SUB=$2; WT=/tmp/r3-$ID; OUT=/tmp/r3-$ID-out/$SUB
+ID=$1; SUB=$2; R=${ROUND:-r3}; WT=/tmp/$R-$ID; OUT=/tmp/$R-$ID-out/$SUB
 export CARGO_NET_OFFLINE=true
 cd $WT || exit 2
 git -C $WT checkout -q -- . ; git -C $WT clean -fdq src
